@@ -504,6 +504,10 @@ func rulePair1(c *Ctx) {
 func ruleMapOrder2(c *Ctx) {
 	c.R.Rule("MAPORDER-2", 2, "%p (heap address) formatting in rendering code occurs only in the cycle-marker branch guarded by PtrSet.Contains (unreachable for acyclic values once PAIR-1 holds) or in the frozen function-value rendering")
 	pair := c.pairSites(false)
+	valStringify := "val.stringify"
+	if fd := c.FuncDecl("val", "stringify"); fd != nil {
+		valStringify = fnName("val", fd) // the canonical renderer, under whatever name it has now
+	}
 	c.eachFile(func(pk *packages.Package, file *ast.File) {
 		var stack []ast.Node
 		ast.Inspect(file, func(x ast.Node) bool {
@@ -553,7 +557,7 @@ func ruleMapOrder2(c *Ctx) {
 				c.R.OK(owner, desc, ce.Pos(), "cycle-marker branch under PtrSet.Contains, and PAIR-1 holds for the function: unreachable for acyclic values")
 			case marker:
 				c.R.Bad(owner, desc, ce.Pos(), "cycle-marker branch prints a heap address and the function does not release its in-process set (PAIR-1): reachable for any value that occurs twice")
-			case kfun && owner == "val.stringify":
+			case kfun && owner == valStringify:
 				c.R.OK(owner, desc, ce.Pos(), "frozen: function values have no canonical text; rendering of KFun by identity is documented")
 			default:
 				c.R.Bad(owner, desc, ce.Pos(), "formats a heap address into text that can reach results")
